@@ -7,7 +7,9 @@ Case (JSON):
   {"nodes": [{"name": "a", "preds": ["b", ...],          # at most 4 predecessors (fields d0..d3), earlier nodes only
               "split": null | [v0, v1, ...],              # own split over `idx` (always combined, so successors see a list);
                                                           #   equal values = equal checksums (one body, futured de-duplication)
-              "inherit": false}],                         # true: no own split, takes the state of its single uncombined pred
+              "inherit": false,                           # true: no own split, takes the state of its single uncombined pred
+              "emit": m,                                  # "lister": the node returns list(range(m)) (m may be 0) ...
+              "split_from": "l"}],                        # ... over which this node splits at run time (always combined)
    "keep_state": ["a", ...]                               # split nodes that are NOT combined (successors inherit the split)
    "k": 2 | null,                                         # max_concurrent (null = inf)
    "fail": [tags], "vanish": {tag: "idle" | "locked"},
@@ -55,6 +57,10 @@ def node_jobs(case: dict) -> dict[str, list[str]]:
         nm = nd["name"]
         if nd.get("split") is not None:
             out[nm] = [f"{nm}.{v}" for v in nd["split"]]
+        elif nd.get("split_from"):
+            # split over the list a "lister" node emits at run time (possibly empty)
+            m = next(x for x in case["nodes"] if x["name"] == nd["split_from"])["emit"]
+            out[nm] = [f"{nm}.{v}" for v in range(m)]
         elif nd.get("inherit"):
             up = nd["preds"][0]
             assert up in keep, "inherit needs an uncombined split predecessor"
@@ -75,6 +81,8 @@ def model_case(case: dict) -> dict:
             ck.setdefault(t, len(ck))
     edges = []
     for nd in case["nodes"]:
+        if nd.get("split_from") and [nid[nd["split_from"]], nid[nd["name"]]] not in edges:
+            edges.append([nid[nd["split_from"]], nid[nd["name"]]])  # field `idx` precedes d0..d3
         for p in nd["preds"]:
             if [nid[p], nid[nd["name"]]] not in edges:
                 edges.append([nid[p], nid[nd["name"]]])
@@ -106,6 +114,8 @@ def gen_source(case: dict, uid: str) -> str:
         kw = [f"nm={nm!r}", "ctl=ctl", "mode=mode"]
         if nd.get("inherit"):
             kw.append("inherit=True")
+        if nd.get("emit") is not None:
+            kw.append(f"emit={int(nd['emit'])}")
         for i, p in enumerate(nd["preds"]):
             kw.append(f"d{i}={p}.out")
         expr = f"Body({', '.join(kw)})"
@@ -113,6 +123,8 @@ def gen_source(case: dict, uid: str) -> str:
             expr += f".split(idx={list(nd['split'])!r})"
             if nm not in keep:
                 expr += ".combine('idx')"
+        elif nd.get("split_from"):
+            expr += f".split(idx={nd['split_from']}.out).combine('idx')"
         elif nd.get("inherit") and nd.get("combine_inherited"):
             expr += f".combine('{nd['preds'][0]}.idx')"
         lines.append(f"    {nm} = workflow.add({expr}, name={nm!r})")
@@ -748,12 +760,13 @@ if __name__ == "__main__":
 # generation of cases, canonical observables of implementation and model, independent oracles
 
 
-def gen_graph(rng, nmin=2, nmax=6, split_p=0.35, allow_keep=True, allow_dup=True) -> dict:
+def gen_graph(rng, nmin=2, nmax=6, split_p=0.35, allow_keep=True, allow_dup=True, allow_empty=True) -> dict:
     """random acyclic workflow: every node consumes a subset (<= 3) of the earlier nodes"""
     n = rng.randint(nmin, nmax)
     names = [chr(ord("a") + i) for i in range(n)]
     rng.shuffle(names)  # names carry no order information
     nodes, keep = [], []
+    listers: list[str] = []
     for i, nm in enumerate(names):
         earlier = [x["name"] for x in nodes]
         npred = 0 if not earlier else rng.choice([0, 1, 1, 1, 2, 2, 3])
@@ -766,13 +779,19 @@ def gen_graph(rng, nmin=2, nmax=6, split_p=0.35, allow_keep=True, allow_dup=True
             nd["preds"] = [up] + [p for p in preds if p not in keep]
             nd["inherit"] = True
             nd["combine_inherited"] = True
+        elif allow_empty and listers and rng.random() < 0.5:
+            # split over the list an earlier "lister" node produces at run time (possibly empty)
+            nd["split_from"] = rng.choice(listers)
+        elif allow_empty and len(nodes) < n - 1 and rng.random() < 0.15:
+            nd["emit"] = rng.choice([0, 0, 1, 2])
+            listers.append(nm)
         elif rng.random() < split_p:
-            m = rng.choice([1, 2, 2, 3, 3])
+            m = rng.choice([1, 2, 2, 3, 3] + ([0, 0] if allow_empty else []))
             vals = list(range(m))
             if allow_dup and m >= 2 and rng.random() < 0.12:
                 vals[-1] = vals[0]  # two jobs with identical inputs: one checksum, one body
             nd["split"] = vals
-            if allow_keep and rng.random() < 0.3:
+            if allow_keep and m > 0 and rng.random() < 0.3:
                 keep.append(nm)
         nodes.append(nd)
     return {"nodes": nodes, "keep_state": keep}
@@ -788,12 +807,17 @@ def all_tags(case: dict) -> list[str]:
     return out
 
 
+def all_preds(nd: dict) -> list[str]:
+    """every node whose output this node consumes (the list it splits over at run time included)"""
+    return ([nd["split_from"]] if nd.get("split_from") else []) + list(nd["preds"])
+
+
 def doomed_nodes(case: dict, fail: set) -> set:
     """nodes that have a failing job somewhere upstream (node granularity, as the scheduler treats dependence)"""
     jobs = node_jobs(case)
     dead: set = set()
     for nd in case["nodes"]:  # nodes are listed in a topological order
-        for p in nd["preds"]:
+        for p in all_preds(nd):
             if p in dead or (p not in dead and any(t in fail for t in jobs[p])):
                 dead.add(nd["name"])
     return dead
@@ -905,7 +929,15 @@ def precedence_ok(case: dict, bodylog: list[str], fail: set) -> tuple[bool, str]
     for n, ts in jobs.items():
         for t in ts:
             node_of.setdefault(t, []).append(n)
-    preds = {nd["name"]: nd["preds"] for nd in case["nodes"]}
+    # all ancestors: a predecessor with an empty job list must not hide what is upstream of it
+    preds: dict[str, list[str]] = {}
+    for nd in case["nodes"]:  # topological order
+        anc: list[str] = []
+        for p in all_preds(nd):
+            for a in [p] + preds[p]:
+                if a not in anc:
+                    anc.append(a)
+        preds[nd["name"]] = anc
     ended_ok, started = set(), set()
     for ev in bodylog:
         kind, t = ev.split()
@@ -929,8 +961,11 @@ def reference_outputs(case: dict) -> dict:
     for nd in case["nodes"]:
         nm = nd["name"]
         deps = [val[p] for p in nd["preds"]]
-        if nd.get("split") is not None:
-            outs = [["J", f"{nm}.{v}", deps] for v in nd["split"]]
+        if nd.get("emit") is not None:
+            val[nm] = list(range(nd["emit"]))
+        elif nd.get("split") is not None or nd.get("split_from"):
+            vals = nd["split"] if nd.get("split") is not None else val[nd["split_from"]]
+            outs = [["J", f"{nm}.{v}", deps] for v in vals]
             per_job[nm] = outs
             val[nm] = outs  # combined: a list; uncombined: the successors inherit the state and see one element each
         elif nd.get("inherit"):
